@@ -85,6 +85,18 @@ def _declarable(prog: Program, model: Model, hook: str, result: SchemaV) -> Tupl
     ps = it.run_paths(run, max_paths=400)
     outs = {("raise:" + p.value.cls_name if p.outcome == "raise" and isinstance(p.value, ExcV) else p.outcome) for p in ps}
     if outs == {"return"}:
+        if hook == "visit_dict":
+            # ... and the declaration would store the very same table (an `optional(k)` object stored as a literal key
+            # is declarable text, but declares the optional key k - another schema)
+            got = []
+            for p in ps:
+                rv = p.value.props.vals.get("keys") if isinstance(p.value, SchemaV) and isinstance(p.value.props, PropsV) else None
+                if isinstance(rv, DictV):
+                    got.append(rv.key())
+            # (a symbolic key forks on `isinstance(key, optional)`: the path that takes every symbolic key as a plain
+            # key is the one to compare with)
+            if got and tbl.key() not in got:
+                return False, f"the declaration would store {min(got, key=len)[:80]} for it"
         return True, ""
     if outs and all(o == "raise:DeclarationError" for o in outs):
         msg = ""
@@ -132,12 +144,25 @@ def _result_declarable(run: Run, prog: Program, model: Model, tier: str) -> None
                 def k(name: str) -> Sym:
                     return Sym(name, "key", ("dictkey", name))
                 forms = [[("r1", "p")], [("r1", ".")], [(".", ".")], [(".", "p")], [("r1", "p"), (".", ".")],
-                         [("r1", "."), ("o1", "p")], [("x", ".")], [("x", "p"), (".", ".")], [("x", "."), (".", ".")]]
+                         [("r1", "."), ("o1", "p")], [("x", ".")], [("x", "p"), (".", ".")], [("x", "."), (".", ".")],
+                         [("?x", "p")], [("r1", "p"), ("?y", "p")]]
                 values = []
+                ocls = prog.cls("declaration.types._optional.optional")
+                tbl0 = cfg.build().get("keys")
+                free_form = not isinstance(tbl0, DictV) or all(is_ell(k0) for k0, _ in tbl0.pairs())
                 for fm in forms:
+                    if any(a.startswith("?") for a, _ in fm) and not free_form:
+                        continue     # a keyed table refuses an optional(...) object as an unknown key
                     def mkv(fm: Any = fm) -> DictV:
-                        return DictV([(ELL if a == "." else k(a), ELL if b == "." else _plain("p_" + a)) for a, b in fm])
-                    values.append(("{" + ", ".join(("..." if a == "." else repr(a)) + ": " + ("..." if b == "." else "1") for a, b in fm) + "}", mkv))
+                        def key_of(a: str) -> V:
+                            if a == ".":
+                                return ELL
+                            if a.startswith("?"):        # an optional(...) object used as a key of the VALUE
+                                return Inst(ocls, {"_key": k(a[1:])})
+                            return k(a)
+                        return DictV([(key_of(a), ELL if b == "." else _plain("p_" + a.lstrip("?"))) for a, b in fm])
+                    values.append(("{" + ", ".join(("..." if a == "." else (f"optional({a[1:]!r})" if a.startswith("?") else repr(a))) + ": "
+                                                   + ("..." if b == "." else "1") for a, b in fm) + "}", mkv))
             bad: List[str] = []
             und: List[str] = []
             ok = 0
@@ -149,7 +174,7 @@ def _result_declarable(run: Run, prog: Program, model: Model, tier: str) -> None
                     vals = p.value.props.vals if isinstance(p.value.props, PropsV) else {}
                     shown = _show(vals.get("elements" if hook == "visit_list" else "keys"))     # type: ignore[arg-type]
                     if verdict is False:
-                        bad.append(f"% {label} returns {st.cls.name} storing {shown}, which the declaration refuses")
+                        bad.append(f"% {label} returns {st.cls.name} storing {shown}, " + (f"but {why}" if why else "which the declaration refuses"))
                     elif verdict is None:
                         und.append(f"% {label}: {why}")
                     else:
@@ -159,7 +184,8 @@ def _result_declarable(run: Run, prog: Program, model: Model, tier: str) -> None
             if bad:
                 run.violated("RESULT-DECLARABLE", c, f.loc, "; ".join(sorted(set(bad)))[:500],
                              witness="validate(schema.list % [1, ..., 2], [1, 5, 2]) raises AttributeError; "
-                                     "fake(schema.dict % {'a': ...}) raises AttributeError")
+                                     "fake(schema.dict % {'a': ...}) raises AttributeError; "
+                                     "schema.dict % {optional('a'): 1} accepts neither {'a': 1} nor {}")
             elif und and not ok:
                 run.undecided("RESULT-DECLARABLE", c, f.loc, "; ".join(sorted(set(und)))[:300])
             else:
@@ -399,6 +425,8 @@ def check(run: Run, prog: Program, model: Model, tier: str) -> None:
 
 SU = "d42/substitution/_substitutor.py"
 MUTANTS = [
+    {"name": "optional(...) keys of the value stored as literal keys again (fix 79361d3 reverted)", "rule": "RESULT-DECLARABLE",
+     "edits": [(SU, "                if isinstance(key, optional):\n                    raise SubstitutionError(f\"Can't substitute {key!r}\")\n", "")]},
     {"name": "int substitution stores int(value) and the validator tells bools from ints (seeded C12-I)", "rule": "RE-PIN",
      "edits": [(SU, "    def visit_int(self, schema: IntSchema, *, value: Any = Nil, **kwargs: Any) -> IntSchema:\n        result = schema.__accept__(self._validator, value=value)\n        if result.has_errors():\n            raise make_substitution_error(result, self._formatter)\n        return schema.__class__(schema.props.update(value=value))",
                 "    def visit_int(self, schema: IntSchema, *, value: Any = Nil, **kwargs: Any) -> IntSchema:\n        result = schema.__accept__(self._validator, value=value)\n        if result.has_errors():\n            raise make_substitution_error(result, self._formatter)\n        return schema.__class__(schema.props.update(value=int(value)))"),
